@@ -96,6 +96,10 @@ def gen_entry(rnd, hostile):
     p = rnd.choice(PLATFORMS)
     if p:
         e["platform"] = list(p)
+    if rnd.random() < 0.12:   # printf-style verbs in the text: output code that passes text as a format string mangles them
+        e["command"] += rnd.choice([" +%Y-%m-%d", " '%s %d'", " 100%", " %!v(MISSING)", " %%"])
+        if rnd.random() < 0.5:
+            e["description"] += rnd.choice([" 50% done", " %s", " %d items"])
     if hostile and rnd.random() < 0.45:
         h = rnd.choice(HOSTILE)
         f = rnd.choice(["command", "description", "niche", "keyword", "platform", "long", "longmb", "mbshort"])
@@ -826,10 +830,10 @@ def evaluate(ctx, runs, colors, use_fuzzy=True):
         diff = [names[j] for j in range(min(len(ta), len(tb), 6)) if ta[j] != tb[j]] if len(ta) == len(tb) == 6 else ["shape"]
         detail = dict(mismatching_cases=len(bad), case=i, differs_in=diff, argv=r.argv, env=r.env_extra,
                       binary=[core.pretty(t) if j in (4, 5) else t for j, t in enumerate(ta)][:6], model=[core.pretty(t) if j in (4, 5) else t for j, t in enumerate(tb)][:6])
+        # a difference between model and binary is a broken tie, not by itself a violation of the property: the property is
+        # evaluated directly on the binary's own output above (hits); here only the correspondence is reported
+        detail["replay"] = replay_of(r, model_line=b, binary_line=a)
         ctx.oblige("correspondence:cli-model", "correspondence", False, detail)
-        if not ctx.hits:
-            ctx.hit("cli-model-differs-from-binary", "model and binary differ in %s for wtf %s" % (diff, " ".join(json.dumps(x) for x in r.argv)[:300]),
-                    replay_of(r, model_line=b, binary_line=a))
     else:
         ctx.oblige("correspondence:cli-model", "correspondence", True, "%d runs: stage, printed ids, format, escapes, history and result-block bytes agree with Wtf.Cli.cliSearch" % len(run.order))
     ctx.oblige("hypothesis:answers-sorted-and-bounded", "correspondence", n_hyp_bad == 0,
@@ -930,6 +934,15 @@ def subcommand_stream(ctx, wtf, n):
             os.makedirs(os.path.join(home, ".config", "cmd-finder"), exist_ok=True)
             open(os.path.join(home, ".config", "cmd-finder", "personal.yml"), "wb").write(rnd.choice([b"- command: [\n", b"x: y\n", b""]))
         argv, stdin = gen(cmd)
+        if cmd == "history" and rnd.random() < 0.6:
+            # a populated history and a pattern that matches it: the listing / filtering code then runs over real entries with
+            # whatever --limit was given (negative, zero, larger than the number of matches)
+            ws = rnd.sample(WORDS, 4)
+            ents = [dict(query=ws[j % 4] + " " + rnd.choice(WORDS), timestamp="2024-01-1%dT01:04:05Z" % j, results_count=j, context="seeded") for j in range(rnd.randint(1, 9))]
+            os.makedirs(os.path.join(home, ".config", "wtf"), exist_ok=True)
+            open(os.path.join(home, ".config", "wtf", "search_history.json"), "w").write(json.dumps(dict(entries=ents, max_size=100)))
+            argv = ["history"] + rnd.choice([[], ["-l", rnd.choice(["-1", "-7", "0", "1", "2", "50"])], ["--limit=" + rnd.choice(["-1", "0", "3"])], ["--top", "-l", rnd.choice(["-1", "0", "2"])]]) + \
+                rnd.choice([[ws[0]], [ws[1][:2]], [ws[0].upper()], [], ["zzzz"]])
         argv = [a.replace("\x00", "") for a in argv]
         try:
             argv_b = [a.encode("utf-8", "surrogateescape") for a in argv]
